@@ -36,6 +36,8 @@ def parse_case(case):
             continue
         if f == "!":
             items.append(("!",))
+        elif f == "~":
+            items.append(("~",))     # timing only: the next flush is inserted after the local tasks have completed
         elif f.startswith("F"):
             items.append(("F", None if f[1:] == "*" else int(f[1:])))
         else:
@@ -60,8 +62,8 @@ def parse_case(case):
 
 
 def item_txt(it):
-    if it[0] == "!":
-        return "!"
+    if it[0] in ("!", "~"):
+        return it[0]
     if it[0] == "F":
         return "F*" if it[1] is None else "F%d" % it[1]
     _, rank, acc, aff = it[:4]
@@ -111,7 +113,7 @@ def replay(case):
             for d in ds:
                 clean[d] = True
                 live.discard(d)
-        else:
+        elif it[0] == "!":
             snaps.append((list(cur), set(d for d in range(nd) if clean[d])))
     return ins_all, snaps, list(cur)
 
@@ -223,8 +225,28 @@ class FlushGen:
             return r.pick([x for x in range(ranks) if x != o]), None
         return r.below(ranks), None
 
-    def phase(self, ranks, ndata, owner, ntasks, style, last):
+    def bounce(self, ranks, ndata, owner):
+        """writer chains that leave the owner and come back (owner -> other rank(s) -> owner), a few readers of the
+           last version on the owner, per tile; access lists of one tile only"""
         r = self.r
+        seq = []
+        for d in r.shuffle(range(ndata))[:r.range(1, ndata)]:
+            o = owner[d]
+            others = [x for x in range(ranks) if x != o] or [o]
+            chain = [o] if r.chance(3, 4) else []
+            for _ in range(r.range(1, 2)):
+                chain += [r.pick(others) for _ in range(r.range(1, 2))] + [o]
+            for k in chain:
+                seq.append(("T", k, [(d, r.pick(["x", "x", "w"]) if seq else "x")], None, frozenset()))
+            for _ in range(r.pick([0, 0, 1, 2])):
+                seq.append(("T", o, [(d, "r")], None, frozenset([0]) if r.chance(1, 3) else frozenset()))
+        return seq
+
+    def phase(self, ranks, ndata, owner, ntasks, style, last, late=False):
+        r = self.r
+        if style == "bounce":
+            items = self.bounce(ranks, ndata, owner)
+            return self.finish_phase(items, ranks, ndata, owner, last, late)
         seq = [a for (_, a) in self.sg.sequence(ndata, ntasks, style, repeats=False)] if ntasks else []
         items = []
         self.seen = set()        # tiles named in this phase (a tile is flushed, hence re-created, at most at phase ends)
@@ -256,6 +278,10 @@ class FlushGen:
         for d in sorted(lastw):
             if lastw[d] != owner[d] and r.chance(1, 2):
                 items.append(("T", lastw[d], [(d, "r")], None, frozenset([0])))
+        return self.finish_phase(items, ranks, ndata, owner, last, late)
+
+    def finish_phase(self, items, ranks, ndata, owner, last, late):
+        r = self.r
         # single-tile flushes in the middle: after the last use of the tile in this phase
         lastuse = {}
         for i, it in enumerate(items):
@@ -279,6 +305,9 @@ class FlushGen:
                 out.append(("F", d))
             if i < len(items):
                 out.append(items[i])
+        # late flush: the flushes at the end of the phase are inserted after the local tasks have completed
+        if late:
+            out.append(("~",))
         # end of the phase: every live tile flushed before the wait
         rest = [d for d in lastuse if d not in mid]
         k = r.below(3)
@@ -373,7 +402,7 @@ def class_overwrite(hdr, items):
         elif it[0] == "F":
             for d in (range(nd) if it[1] is None else [it[1]]):
                 inplace[d] = True
-        else:
+        elif it[0] == "!":
             pend = [False] * nd
     return False
 
@@ -399,7 +428,7 @@ def class_reflush(hdr, items):
                     return True
                 if used[it[1]]:
                     flushed[it[1]] = True
-        else:
+        elif it[0] == "!":
             used = [False] * nd
             flushed = [False] * nd
     return False
@@ -479,6 +508,9 @@ class C17(Check):
             "(styles of C03: mixed, reader groups, RW chains, independent groups, wide) placed by a rank value (two out of "
             "three times away from the owner of a written tile) or by PARSEC_AFFINITY on a flow; reads through the whole-tile or "
             "the leading-part datatype, one tile in two written off its owner gets a last leading-part read before its flush; "
+            "one phase in five is a set of writer chains that leave the owner and return (owner -> other ranks -> owner), "
+            "one phase in three flushes late (the inserting threads first wait for the bodies of their local tasks, so that "
+            "the flush takes the last-user-not-alive branch of parsec_insert_dtd_flush_task); "
             "single-tile flushes after the "
             "last use of the tile in the phase, flushes of untouched tiles, repeated flushes, flush_all; every phase ends "
             "with all used tiles flushed and a wait (one rank: also waits without flush); 8 configurations of (ranks, "
@@ -490,7 +522,9 @@ class C17(Check):
     assumptions = ("API contract of parsec_dtd_data_flush: the tile is not named again before a wait (wfb)",
                    "several ranks: every tile with a user is flushed before a wait",
                    "a task names a tile at most once; schedulers ll, llp, ip excluded (known findings of C03/C04)",
-                   "every rank inserts the same sequence")
+                   "every rank inserts the same sequence",
+                   "the timing of a flush relative to the completion of the tile's users (last_user alive / not alive) is not a "
+                   "parameter of the model: every timing is one of the event lists the theorems quantify over")
 
     def __init__(self, tier, seed):
         super().__init__(tier, seed)
@@ -641,7 +675,10 @@ class C17(Check):
                 items = []
                 for ph in range(nph):
                     nt = r.pick([0, r.range(1, 4), r.range(3, 10), r.range(5, maxtasks)])
-                    items += g.phase(ranks, ndata, owner, nt, r.pick(self.styles), ph == nph - 1)
+                    # late flush (threads >= 2: with one thread the inserting thread is the only worker)
+                    late = th >= 2 and r.chance(1, 3)
+                    style = "bounce" if r.chance(1, 5) else r.pick(self.styles)
+                    items += g.phase(ranks, ndata, owner, nt, style, ph == nph - 1, late or (style == "bounce" and th >= 2 and r.chance(1, 2)))
                 spin = r.pick([0, r.range(1, 1000), r.range(1, 1000)])
                 c = case_txt(ranks, ndata, th, sc, w, h, spin, owner, items)
                 if self.excluded(c):
@@ -749,7 +786,7 @@ class C17(Check):
     def dist(self, cases):
         d = {"cases": len(cases), "ranks": {}, "threads": {}, "sched": {}, "window": {}, "tasks_hist": {},
              "flush_single": 0, "flush_all": 0, "waits": 0, "tasks_placed_off_owner_of_written_tile": 0,
-             "affinity_on_flow": 0, "max_tasks": 0, "reads_of_leading_part": 0,
+             "affinity_on_flow": 0, "max_tasks": 0, "late_flush_points": 0, "reads_of_leading_part": 0,
              "flushes_after_a_leading_part_read_of_a_tile_written_off_owner": 0}
         for c in cases:
             try:
@@ -779,7 +816,9 @@ class C17(Check):
                     d["flush_all" if it[1] is None else "flush_single"] += 1
                 elif it[0] == "!":
                     d["waits"] += 1
-                else:
+                elif it[0] == "~":
+                    d["late_flush_points"] += 1
+                elif it[0] == "T":
                     d["affinity_on_flow"] += it[3] is not None
                     d["tasks_placed_off_owner_of_written_tile"] += any(m != "r" and it[1] != hdr["owner"][x] for (x, m) in it[2])
         return d
